@@ -16,3 +16,46 @@ Print Assumptions C17_endpoint_order_decision.
 Theorem C17_endcap_hit : forall tol p, (d01 p <= tol)%Q \/ (d02 p <= tol)%Q -> on_line tol p = true.
 Proof. exact endcap_hit. Qed.
 Print Assumptions C17_endcap_hit.
+
+(* ---- the geometry of the quantities OnLine computes, over the reals, for the formulas as
+   written in haversine.go / processor.go ---- *)
+From Coq Require Import Reals.
+From TT Require Import Proofs.Hav Proofs.Online_real.
+Local Open Scope R_scope.
+
+(* havSin x = hav (asin x);  sinSum x y = sin (invHav x + invHav y);  sinHav (hav x) is the
+   chord 2 |sin (x/2)| (its comment says sin |x|: true to second order only) *)
+Theorem C17_hav_sin : forall x, -1 <= x <= 1 -> hav_sin x = hav (asin x).
+Proof. exact hav_sin_spec. Qed.
+Print Assumptions C17_hav_sin.
+Theorem C17_sin_sum : forall x y, 0 <= x <= 1 -> 0 <= y <= 1 -> sin_sum x y = sin (inv_hav x + inv_hav y).
+Proof. exact sin_sum_spec. Qed.
+Print Assumptions C17_sin_sum.
+Theorem C17_sin_hav : forall x, sin_hav (hav x) = 2 * Rabs (sin (x / 2)).
+Proof. exact sin_hav_spec. Qed.
+Print Assumptions C17_sin_hav.
+
+(* The cross-track term.  For positions 0 (the fix), 1 and 2 (the line's end points), with unit
+   vectors v0, v1, v2: sinHav(dist01) * sinDeltaBearing(1, 2, 0) is exactly
+       (v1 . (v0 x v2)) / |v1 x v2|  *  sqrt (2 / (1 + v0.v1))
+   - the first factor is the sine of the fix's angular distance from the great circle through the
+   end points (`C17_cross_norm`: |v1 x v2|^2 = 1 - (v1.v2)^2), the second is 1 / cos (theta01 / 2)
+   (`C17_chord_factor`), i.e. 1 + theta01^2 / 8 + ...: below 1 + 4e-9 for a fix within a
+   kilometre of end point 1 on the Earth.  `track` is havSin of that product. *)
+Theorem C17_cross_track_argument :
+  forall la0 lo0 la1 lo1 la2 lo2,
+  let d01 := dot la0 lo0 la1 lo1 in let d21 := dot la2 lo2 la1 lo1 in
+  -1 < d01 < 1 -> -1 < d21 < 1 ->
+  sin_hav (distance_hav la0 lo0 la1 lo1) * sin_delta_bearing la1 lo1 la2 lo2 la0 lo0
+  = triple la1 lo1 la0 lo0 la2 lo2 / sqrt (1 - d21 * d21) * sqrt (2 / (1 + d01)).
+Proof. exact cross_track_argument. Qed.
+Print Assumptions C17_cross_track_argument.
+Theorem C17_cross_norm :
+  forall la1 lo1 la2 lo2,
+  cx la1 lo1 la2 lo2 * cx la1 lo1 la2 lo2 + cy la1 lo1 la2 lo2 * cy la1 lo1 la2 lo2 + cz la1 lo1 la2 lo2 * cz la1 lo1 la2 lo2
+  = 1 - dot la1 lo1 la2 lo2 * dot la1 lo1 la2 lo2.
+Proof. exact cross_norm. Qed.
+Print Assumptions C17_cross_norm.
+Theorem C17_chord_factor : forall theta, 0 <= theta < PI -> sqrt (2 / (1 + cos theta)) = / cos (theta / 2).
+Proof. exact chord_factor. Qed.
+Print Assumptions C17_chord_factor.
